@@ -16,7 +16,7 @@ import (
 )
 
 var profile = histeng.Profile{MaxTargets: 7, Edits: []string{"edit-content", "bump-nonce"},
-	ExtSteps: []string{"set-fail", "set-fail", "set-softfail", "set-softfail", "set-skipout", "set-skipout", "set-slow", "set-selfkill", "set-wrongestablish", "clear-switches", "clear-switches", "clear-marker", "toggle-noestablish"},
+	Taint: true, ExtSteps: []string{"set-fail", "set-fail", "set-softfail", "set-softfail", "set-skipout", "set-skipout", "set-slow", "set-selfkill", "set-wrongestablish", "clear-switches", "clear-switches", "clear-marker", "toggle-noestablish"},
 	Checks:   true, Timeouts: true, FailFast: true, DirOutputs: true, MinSteps: 4, MaxSteps: 12, SubsetBuilds: true}
 
 func run(h histeng.History) (pbt.Result, error) {
@@ -77,8 +77,8 @@ func TestFailFastGated(t *testing.T) {
 		Gen: func(t *rapid.T) Case {
 			c := Case{Chains: rapid.IntRange(1, 3).Draw(t, "chains"), Workers: rapid.IntRange(2, 6).Draw(t, "workers"), DirOut: rapid.Bool().Draw(t, "dirout"), Warm: rapid.Bool().Draw(t, "warm")}
 			if rapid.IntRange(0, 2).Draw(t, "queue-scenario") == 0 {
-				c.Queue = rapid.IntRange(3, 7).Draw(t, "queue")
 				c.Workers = rapid.IntRange(1, 2).Draw(t, "qworkers")
+				c.Queue = rapid.IntRange(2*c.Workers+2, 2*c.Workers+6).Draw(t, "queue")
 			}
 			return c
 		},
@@ -114,8 +114,11 @@ func TestFailFastGated(t *testing.T) {
 				if r.Exit == 0 {
 					return res, pbt.Fail("C05:exit-zero-despite-failure", "every target fails, yet grog exited 0%s", tail)
 				}
-				if started > c.Workers {
-					return res, pbt.Fail("C05:start-after-fail-fast", "%d commands started with %d workers under --fail-fast although each of them fails: queued targets were started after the first failure%s", started, c.Workers, tail)
+				// "Observed" is grog's observation, not the command's exit: a worker may take one more queued job in the instant
+				// between its command's failure and the walker's reaction to it (seen once in some hundred runs). So each worker is
+				// allowed one start beyond its first; every queued target starting is what the property forbids.
+				if started > 2*c.Workers {
+					return res, pbt.Fail("C05:start-after-fail-fast", "%d commands started with %d workers under --fail-fast although each of them fails after 0.4 s: queued targets keep being started after the first failure%s", started, c.Workers, tail)
 				}
 				res.Classes = append(res.Classes, "queue-scenario")
 				return res, nil
